@@ -95,11 +95,17 @@ type World struct {
 	OnHold  func(g *simhook.G, site string, d time.Duration)
 	// HoldNth: one-shot holds aimed at the n-th hook of a site class that a particular goroutine passes
 	// (see NthHold); Roles: goroutine id -> role, maintained by TrackRoles.
-	HoldNth []*NthHold
-	Roles   map[string]string
-	prio    map[string]int // PCT priorities
-	pctPts  map[uint64]bool
-	Stalls  int
+	HoldNth      []*NthHold
+	Roles        map[string]string
+	spinStep     uint64
+	spinHooks    int
+	SpinMax      uint64 // most scheduler steps seen at one simulated instant
+	spinNow      time.Duration
+	spinFrom     uint64
+	lastReleased string
+	prio         map[string]int // PCT priorities
+	pctPts       map[uint64]bool
+	Stalls       int
 }
 
 // NewWorld installs the scheduler; must be called inside the bubble by the root goroutine.
@@ -235,6 +241,21 @@ func (w *World) Run(horizon time.Duration, done func() bool) string {
 		if w.Steps >= w.MaxSteps {
 			return "steps"
 		}
+		// no progress in time: tens of thousands of scheduler steps at one simulated instant. Healthy code
+		// runs a few hundred steps per instant and then blocks until a timer or the network wakes it; a
+		// goroutine that keeps being runnable without ever waiting (a retry loop on a dead socket) pins
+		// the clock. (Preemptions chop such a loop into many short steps, so it is counted here, by the
+		// driver, and not per step.)
+		if d := w.Steps - w.spinFrom; now == w.spinNow && d > w.SpinMax {
+			w.SpinMax = d
+		}
+		if now != w.spinNow {
+			w.spinNow, w.spinFrom = now, w.Steps
+		} else if w.Steps-w.spinFrom > spinSteps && w.Viol == nil {
+			w.Fail("BUSY_LOOP", "%d scheduler steps at the simulated instant %v and the clock still cannot advance: a goroutine of the code under test is runnable again and again without ever waiting (last released: %s)", w.Steps-w.spinFrom, now, w.lastReleased)
+
+			return "stopped"
+		}
 		// candidates
 		parked := w.S.Parked()
 		var cands []*simhook.G
@@ -276,6 +297,7 @@ func (w *World) Run(horizon time.Duration, done func() bool) string {
 		w.Steps++
 		k := w.pick(cands, due)
 		if k < len(cands) {
+			w.lastReleased = cands[k].ID + " at " + cands[k].Site
 			w.S.Release(cands[k])
 		} else {
 			e := due[k-len(cands)]
@@ -407,11 +429,29 @@ func (w *World) TrackRoles(byPrefix [][2]string) {
 	}
 }
 
+const spinLimit = 300000
+const spinSteps = 5000
+
 // policy implements simhook.Policy on top of the world's tape.
 type policy World
 
 func (p *policy) Preempt(g *simhook.G, site string) bool {
 	w := (*World)(p)
+	// busy-loop detector: a goroutine that passes hundreds of thousands of scheduling points within ONE
+	// driver step never blocks and never lets simulated time advance — code under test that spins (for
+	// example a read loop that keeps retrying on a closed socket). Without this the worker would hang
+	// until the coordinator's wall-clock watchdog fired (an infrastructure error, not a verdict).
+	if w.spinStep != w.Steps {
+		w.spinStep, w.spinHooks = w.Steps, 0
+	}
+	if w.spinHooks++; w.spinHooks > spinLimit {
+		if w.Viol == nil {
+			w.Fail("BUSY_LOOP", "goroutine %s passed %d scheduling points in a row (the last one: %s) without blocking or letting simulated time advance: the code under test is spinning", g.ID, w.spinHooks, site)
+		}
+		g.StallUntil = int64(w.Now() + 24*time.Hour)
+
+		return true
+	}
 	st := &w.Strat
 	if len(w.HoldAt) > 0 {
 		// a targeted scheduling fault armed by the harness: the next goroutine to reach this site (a key
